@@ -3,14 +3,25 @@
 //! Drives the public `euclidicity::is_euclidean`, `delaney3d::{orbifold_graph,
 //! pseudo_toroidal_cover}` and `covers::covers` (the latter only to construct inputs).
 //!
-//!   euc         IN deep rep sym                 OUT class reason [0 | 1 cover]  | PANIC
+//!   euc         IN deep rep sym                 OUT class reason t c [cover]    | PANIC
 //!                                               (class yes/no/maybe; reason = message with `_`
-//!                                               for spaces, `-` for yes; on yes the result of the
-//!                                               public pseudo_toroidal_cover follows)
+//!                                               for spaces, `-` for yes — INFORMATIONAL, compared
+//!                                               by nobody; t = INVARIANTS.contains(orbifold_invariant),
+//!                                               c = pseudo_toroidal_cover is Some (`-` when t = 0),
+//!                                               both through the hooks; on yes the cover follows)
+//!   euc_s, euc_corpus_s, ograph_s, oinv_s       the same on the symbol held as a SimpleDSym
 //!   euc_corpus  as euc; Spec demands yes
 //!   eucinv      IN k sym ren_1 … ren_k dual     OUT one class per variant (panic = `panic`)
 //!   euccov      IN sym m cover_1 … cover_m      OUT class(sym) class(cover_1) … class(cover_m)
 //!   ograph      IN sym                          OUT nl label… ne v w …          | PANIC
+//!
+//! Hooks of the cascade (`euclidicity::verif_hooks`, cfg odf_rust_dsymbols_verif), each compared
+//! EXACTLY with its Lean model:
+//!   oinv        IN sym                          OUT string 0|1   (orbifold_invariant; is it in INVARIANTS)
+//!   intable     IN token                        OUT 0|1          (invariants_contains)
+//!   bsc         IN index expected n rels        OUT 0|1          (bad_subgroup_count)
+//!   bsi         IN index expected… n rels       OUT 0|1          (bad_subgroup_invariants)
+//!   bcc         IN sym (any dimension)          OUT 0|1          (bad_connected_components)
 //!
 //! Universe: the 3D universe of C15 (`d3gen`), covers with ≤ 2 (quick) / 3 (thorough) sheets
 //! (≤ 4 sheets for n ≤ 2 quick / n ≤ 3 thorough),
@@ -20,21 +31,32 @@
 //! euclidean by construction and `yes` is demanded (`euc_corpus`).
 use rust_dsymbols::covers::covers;
 use rust_dsymbols::delaney3d::{orbifold_graph, pseudo_toroidal_cover};
+use rust_dsymbols::dsyms::{DSym, SimpleDSym};
+use rust_dsymbols::euclidicity::verif_hooks as hooks;
 use rust_dsymbols::euclidicity::{is_euclidean, Euclidean};
+use rust_dsymbols::fpgroups::cosets::coset_tables;
+use rust_dsymbols::fpgroups::free_words::FreeWord;
+use rust_dsymbols::fpgroups::invariants::abelian_invariants;
+use rust_dsymbols::fundamental_group::{fundamental_group, FundamentalGroup};
+use std::collections::{BTreeMap, BTreeSet};
 use std::panic::{catch_unwind, AssertUnwindSafe};
 use verif_harness::d3gen::{
     automorphisms, classes, corpus, curvature2, euclidean_2d, in_domain_3d, labelled, mirror_prisms, parse_symbol,
     perm_order, stacked_prisms, symbols_2d_cryst, symbols_3d,
 };
-use verif_harness::dsgen::{random_perm1, Tab};
-use verif_harness::{Ctx, Rng};
+use verif_harness::dsgen::{all_vs, random_perm1, Tab};
+use verif_harness::{enc_list, enc_lists, Ctx, Rng};
 
-fn verdict(t: &Tab) -> (String, String) {
-    match is_euclidean(&t.to_partial_dsym()) {
+fn verdict_of<T: DSym>(ds: &T) -> (String, String) {
+    match is_euclidean(ds) {
         Euclidean::Yes => ("yes".to_string(), "-".to_string()),
         Euclidean::No(s) => ("no".to_string(), s.replace(' ', "_")),
         Euclidean::Maybe(s, _) => ("maybe".to_string(), s.replace(' ', "_")),
     }
+}
+
+fn verdict(t: &Tab) -> (String, String) {
+    verdict_of(&t.to_partial_dsym())
 }
 
 fn class_of(t: &Tab) -> String {
@@ -44,7 +66,26 @@ fn class_of(t: &Tab) -> String {
     }
 }
 
-fn euc(ctx: &mut Ctx, op: &str, s: &Tab, deep: bool, rep: usize, extra: &str) {
+/// the observable of one `is_euclidean` call: class, message (informational: compared by nobody),
+/// the two facts decided before `simplify` as the code itself evaluates them through the hooks —
+/// `INVARIANTS.contains(orbifold_invariant(ds))` and, when that holds, whether
+/// `pseudo_toroidal_cover(ds)` is `Some` (else `-`) —, and on `yes` the cover
+fn euc_out<T: DSym>(ds: &T) -> String {
+    let (c, r) = verdict_of(ds);
+    let t = hooks::invariants_contains(&hooks::orbifold_invariant(ds));
+    if !t {
+        return format!("{} {} 0 -", c, r);
+    }
+    match pseudo_toroidal_cover(ds) {
+        Some(cov) if c == "yes" => format!("{} {} 1 1 {}", c, r, Tab::from_dsym(&cov).enc()),
+        Some(_) => format!("{} {} 1 1", c, r),
+        None => format!("{} {} 1 0", c, r),
+    }
+}
+
+/// `simple`: the same symbol held as a `SimpleDSym` (op suffix `_s`); `is_euclidean` and its callees
+/// are generic over the `DSym` implementation
+fn euc_as(ctx: &mut Ctx, op: &str, s: &Tab, deep: bool, rep: usize, extra: &str, simple: bool) {
     if !ctx.peek_mine() {
         ctx.skip();
         return;
@@ -56,22 +97,52 @@ fn euc(ctx: &mut Ctx, op: &str, s: &Tab, deep: bool, rep: usize, extra: &str) {
     // non-trivial: the verdict is not settled by the invariant table alone
     let nt = reason != "orbifold_invariants_do_not_match";
     let tag = format!("{}size={} class={} reason={} {}", if nt { "nt " } else { "" }, s.size, cls, reason, extra);
+    let op = if simple { format!("{}_s", op) } else { op.to_string() };
     ctx.case(
-        op,
+        &op,
         &tag,
         || format!("{} {} {}", if deep { 1 } else { 0 }, rep, s.enc()),
         || {
-            let (c, r) = verdict(s);
-            if c == "yes" {
-                match pseudo_toroidal_cover(&s.to_partial_dsym()) {
-                    Some(cov) => format!("{} {} 1 {}", c, r, Tab::from_dsym(&cov).enc()),
-                    None => format!("{} {} 0", c, r),
-                }
+            if simple {
+                let ds: SimpleDSym = s.to_partial_dsym().into();
+                euc_out(&ds)
             } else {
-                format!("{} {}", c, r)
+                euc_out(&s.to_partial_dsym())
             }
         },
     );
+}
+
+fn euc(ctx: &mut Ctx, op: &str, s: &Tab, deep: bool, rep: usize, extra: &str) {
+    euc_as(ctx, op, s, deep, rep, extra, false)
+}
+
+/// the `SimpleDSym` stream: verdict, orbifold graph and invariant string of the same symbol
+fn simple_stream(ctx: &mut Ctx, op: &str, s: &Tab, extra: &str) {
+    euc_as(ctx, op, s, false, 0, extra, true);
+    let tag = format!("size={} {}", s.size, extra);
+    ctx.case("ograph_s", &tag, || s.enc(), || {
+        let ds: SimpleDSym = s.to_partial_dsym().into();
+        enc_graph(orbifold_graph(&ds))
+    });
+    ctx.case("oinv_s", &tag, || s.enc(), || {
+        let ds: SimpleDSym = s.to_partial_dsym().into();
+        let inv = hooks::orbifold_invariant(&ds);
+        let c = hooks::invariants_contains(&inv);
+        format!("{} {}", inv, bit(c))
+    });
+}
+
+fn enc_graph(g: (Vec<String>, Vec<(usize, usize)>)) -> String {
+    let (labels, edges) = g;
+    let mut out = vec![labels.len().to_string()];
+    out.extend(labels);
+    out.push(edges.len().to_string());
+    for (v, w) in edges {
+        out.push(v.to_string());
+        out.push(w.to_string());
+    }
+    out.join(" ")
 }
 
 fn variants(s: &Tab, rng: &mut Rng, k: usize) -> Vec<Tab> {
@@ -141,17 +212,401 @@ fn euccov_capped(ctx: &mut Ctx, s: &Tab, sheets: usize, cap: usize, extra: &str)
 
 fn ograph(ctx: &mut Ctx, s: &Tab, extra: &str) {
     let tag = format!("size={} {}", s.size, extra);
-    ctx.case("ograph", &tag, || s.enc(), || {
-        let (labels, edges) = orbifold_graph(&s.to_partial_dsym());
-        let mut out = vec![labels.len().to_string()];
-        out.extend(labels);
-        out.push(edges.len().to_string());
-        for (v, w) in edges {
-            out.push(v.to_string());
-            out.push(w.to_string());
-        }
-        out.join(" ")
+    ctx.case("ograph", &tag, || s.enc(), || enc_graph(orbifold_graph(&s.to_partial_dsym())));
+}
+
+// ---------------------------------------------------------------------------------------------
+// hooks of the cascade
+// ---------------------------------------------------------------------------------------------
+
+fn bit(b: bool) -> &'static str {
+    if b { "1" } else { "0" }
+}
+
+/// `orbifold_invariant` (full string) and `INVARIANTS.contains` of it
+fn oinv(ctx: &mut Ctx, s: &Tab, extra: &str) {
+    let tag = format!("size={} {}", s.size, extra);
+    ctx.case("oinv", &tag, || s.enc(), || {
+        let inv = hooks::orbifold_invariant(&s.to_partial_dsym());
+        let c = hooks::invariants_contains(&inv);
+        format!("{} {}", inv, bit(c))
     });
+}
+
+fn intable(ctx: &mut Ctx, tok: &str, extra: &str) {
+    ctx.case("intable", extra, || tok.to_string(), || bit(hooks::invariants_contains(tok)).to_string());
+}
+
+/// a presentation ⟨1..n | rels⟩ as it is handed to the hooks (they read `gen_to_edge.len()` and
+/// `relators` only)
+#[derive(Clone)]
+struct Pres {
+    name: String,
+    n: usize,
+    rels: Vec<Vec<isize>>,
+}
+
+impl Pres {
+    fn new(name: &str, n: usize, rels: &[&[isize]]) -> Pres {
+        // through FreeWord, so that what is transmitted is what the hook sees (free reduction)
+        let rels = rels.iter().map(|w| FreeWord::from(w.to_vec()).iter().cloned().collect()).collect();
+        Pres { name: name.to_string(), n, rels }
+    }
+    fn of_fg(name: &str, fg: &FundamentalGroup) -> Pres {
+        Pres {
+            name: name.to_string(),
+            n: fg.gen_to_edge.len(),
+            rels: fg.relators.iter().map(|w| w.iter().cloned().collect()).collect(),
+        }
+    }
+    fn of_sym(name: &str, t: &Tab) -> Pres {
+        Pres::of_fg(name, &fundamental_group(&t.to_partial_dsym()))
+    }
+    fn fg(&self) -> FundamentalGroup {
+        FundamentalGroup {
+            relators: self.rels.iter().map(|w| FreeWord::from(w.clone())).collect(),
+            cones: BTreeSet::new(),
+            gen_to_edge: (1..=self.n).map(|g| (g, (g, 0))).collect::<BTreeMap<_, _>>(),
+            edge_to_word: BTreeMap::new(),
+        }
+    }
+    fn enc(&self) -> String {
+        format!("{} {}", self.n, enc_lists(&self.rels))
+    }
+    fn total_len(&self) -> usize {
+        self.rels.iter().map(|w| w.len()).sum()
+    }
+    fn h1(&self) -> Vec<usize> {
+        let fg = self.fg();
+        abelian_invariants(self.n, &fg.relators)
+    }
+    /// number of tables `coset_tables` yields up to `cap + 1` (input construction only)
+    fn classes(&self, index: usize, cap: usize) -> usize {
+        let fg = self.fg();
+        coset_tables(self.n, &fg.relators, index).take(cap + 1).count()
+    }
+}
+
+fn bsc(ctx: &mut Ctx, g: &Pres, index: usize, expected: usize, extra: &str) {
+    let tag = format!("nt gens={} index={} expected={} group={} {}", g.n, index, expected, g.name, extra);
+    ctx.case("bsc", &tag, || format!("{} {} {}", index, expected, g.enc()), || {
+        bit(hooks::bad_subgroup_count(&g.fg(), index, expected)).to_string()
+    });
+}
+
+fn bsi(ctx: &mut Ctx, g: &Pres, index: usize, expected: &[usize], extra: &str) {
+    let tag = format!("nt gens={} index={} expected={} group={} {}", g.n, index, expected.len(), g.name, extra);
+    ctx.case("bsi", &tag, || format!("{} {} {}", index, enc_list(expected), g.enc()), || {
+        bit(hooks::bad_subgroup_invariants(&g.fg(), index, expected.to_vec())).to_string()
+    });
+}
+
+/// every hook case of one group; `deep`: also the expensive indices
+fn group_cases(ctx: &mut Ctx, g: &Pres, deep: bool, extra: &str) {
+    let small = g.n <= 3 && g.total_len() <= 60;
+    let h1 = g.h1();
+    // bad_subgroup_count: the two calls of the cascade (the second is commented out in the code),
+    // and expectations around the actual number of classes, so that both outcomes and the
+    // `take(expected + 1)` cap occur
+    bsc(ctx, g, 2, 8, extra);
+    bsc(ctx, g, 1, 1, extra);
+    bsc(ctx, g, 2, 0, extra);
+    let c2 = g.classes(2, 64);
+    bsc(ctx, g, 2, c2, extra);
+    bsc(ctx, g, 2, c2 + 1, extra);
+    if c2 >= 2 {
+        bsc(ctx, g, 2, c2 - 1, extra);
+    }
+    if small || deep {
+        bsc(ctx, g, 3, 21, extra);
+        let c3 = g.classes(3, 64);
+        bsc(ctx, g, 3, c3, extra);
+    }
+    // bad_subgroup_invariants: the calls of the cascade and of bad_connected_components, and
+    // expectations that are met by the whole group (index 1)
+    bsi(ctx, g, 2, &[0, 0, 0], extra);
+    bsi(ctx, g, 1, &h1, extra);
+    bsi(ctx, g, 2, &h1, extra);
+    bsi(ctx, g, 1, &[0, 0, 0], extra);
+    if small {
+        bsi(ctx, g, 5, &[], extra);
+        bsi(ctx, g, 3, &h1, extra);
+    }
+}
+
+fn bcc(ctx: &mut Ctx, s: &Tab, extra: &str) {
+    let tag = format!("nt size={} dim={} {}", s.size, s.dim, extra);
+    ctx.case("bcc", &tag, || s.enc(), || {
+        bit(hooks::bad_connected_components(&s.to_partial_dsym())).to_string()
+    });
+}
+
+/// one more index `dim + 1` acting as the identity with branching number 1: the components that
+/// `bad_connected_components` inspects (`subsymbol(ds, 0..ds.dim(), d)`, the range EXCLUDES
+/// `ds.dim()`) are then the connected components of `t` itself
+fn lift(t: &Tab) -> Tab {
+    let mut u = t.clone();
+    u.dim = t.dim + 1;
+    u.op.push((0..=t.size).collect());
+    let mut v = vec![1; t.size + 1];
+    v[0] = 0;
+    u.v.push(v);
+    u
+}
+
+/// disjoint union
+fn union(a: &Tab, b: &Tab) -> Tab {
+    assert_eq!(a.dim, b.dim);
+    let mut u = a.clone();
+    u.size = a.size + b.size;
+    for i in 0..=a.dim {
+        for d in 1..=b.size {
+            u.op[i].push(b.op[i][d] + a.size);
+        }
+    }
+    for i in 0..a.dim {
+        for d in 1..=b.size {
+            u.v[i].push(b.v[i][d]);
+        }
+    }
+    u
+}
+
+/// the square torus (one square, 8 chambers, group p1) with a cone point of order `v01` in the
+/// middle of the square: for `v01 = 1` euclidean, otherwise the hyperbolic orbifold T²(v01)
+fn torus_base(v01: usize) -> Tab {
+    let id = |c: usize, s: usize| 2 * (c % 4) + s + 1;
+    let mut op = vec![vec![0usize; 9]; 3];
+    for c in 0..4 {
+        op[1][id(c, 0)] = id(c, 1);
+        op[1][id(c, 1)] = id(c, 0);
+        op[0][id(c, 1)] = id(c + 1, 0);
+        op[0][id(c + 1, 0)] = id(c, 1);
+    }
+    for ((a, b), (c, d)) in [((0, 1), (3, 0)), ((1, 0), (2, 1)), ((1, 1), (0, 0)), ((2, 0), (3, 1))] {
+        op[2][id(a, b)] = id(c, d);
+        op[2][id(c, d)] = id(a, b);
+    }
+    let mut v = vec![vec![1usize; 9]; 2];
+    v[0][0] = 0;
+    v[1][0] = 0;
+    for d in 1..=8 {
+        v[0][d] = v01;
+    }
+    Tab { size: 8, dim: 2, op, v }
+}
+
+/// T²(k) × S¹ as a 3D symbol (48 chambers): H₁ = Z³, and for k > 1 a subgroup of index 2 with
+/// another H₁ — the only way found to reach `bad subgroups` behind `H₁ = Z³`
+fn torus_cone_prism(k: usize) -> Tab {
+    let b = torus_base(k);
+    let id: Vec<usize> = (0..=b.size).collect();
+    stacked_prisms(&b, &id).expect("prism over the square torus")
+}
+
+fn synthetic_groups() -> Vec<Pres> {
+    let c = |a: isize, b: isize| vec![a, b, -a, -b];
+    let mut out = vec![
+        Pres::new("F0", 0, &[]),
+        Pres::new("F1", 1, &[]),
+        Pres::new("F2", 2, &[]),
+        Pres::new("F3", 3, &[]),
+        Pres::new("F4", 4, &[]),
+        Pres::new("Z2free", 2, &[&[1, -1], &[]]),
+        Pres::new("Z^2", 2, &[&c(1, 2)]),
+        Pres::new("Z^3", 3, &[&c(1, 2), &c(1, 3), &c(2, 3)]),
+        Pres::new("Z^3+1", 4, &[&c(1, 2), &c(1, 3), &c(2, 3), &[4]]),
+        Pres::new("Z^3red", 4, &[&c(1, 2), &c(1, 3), &c(2, 3), &[4, -1, -2]]),
+        Pres::new("Z^4", 4, &[&c(1, 2), &c(1, 3), &c(1, 4), &c(2, 3), &c(2, 4), &c(3, 4)]),
+        Pres::new("ZxF2", 3, &[&c(1, 2), &c(1, 3)]),
+        Pres::new("Z^2*Z", 3, &[&c(1, 2)]),
+        Pres::new("Z^3xZ2", 4, &[&c(1, 2), &c(1, 3), &c(2, 3), &c(1, 4), &c(2, 4), &c(3, 4), &[4, 4]]),
+        Pres::new("Z^2xZ2", 3, &[&c(1, 2), &c(1, 3), &c(2, 3), &[3, 3]]),
+        Pres::new("Heis", 3, &[&[1, 2, -1, -2, -3], &c(1, 3), &c(2, 3)]),
+        Pres::new("Klein", 2, &[&[1, 2, -1, 2]]),
+        Pres::new("KleinxZ", 3, &[&[1, 2, -1, 2], &c(1, 3), &c(2, 3)]),
+        Pres::new("G2", 3, &[&c(1, 2), &[3, 1, -3, 1], &[3, 2, -3, 2]]),
+        Pres::new("T2(2)xZ", 3, &[&[1, 2, -1, -2, 1, 2, -1, -2], &c(1, 3), &c(2, 3)]),
+        Pres::new("Z^3*Z2", 4, &[&c(1, 2), &c(1, 3), &c(2, 3), &[4, 4]]),
+        Pres::new("Z^3*A5", 5, &[&c(1, 2), &c(1, 3), &c(2, 3), &[4, 4], &[5, 5, 5], &[4, 5, 4, 5, 4, 5, 4, 5, 4, 5]]),
+        Pres::new("2I", 2, &[&[1, 1, 1, 1, 1, -2, -2, -2], &[2, 2, 2, -1, -2, -1, -2]]),
+        Pres::new("Z5", 1, &[&[1, 1, 1, 1, 1]]),
+        Pres::new("L(7,1)", 2, &[&[1, 1, 1, 1, 1, 1, 1], &[2]]),
+        Pres::new("Z2^3", 3, &[&c(1, 2), &c(1, 3), &c(2, 3), &[1, 1], &[2, 2], &[3, 3]]),
+        Pres::new("Z*Z2", 2, &[&[2, 2]]),
+        Pres::new("Z2*Z2*Z2", 3, &[&[1, 1], &[2, 2], &[3, 3]]),
+    ];
+    // seven classes of index 2 without H1 = Z^3: Z2^3 above; eight classes: Z^3 and Z^3*A5
+    out.push(Pres::new("Z^3x3", 3, &[&c(1, 2), &c(1, 3), &c(2, 3), &[1, 1, 1]]));
+    out
+}
+
+/// the new cases of this round: hooks of the cascade
+fn hook_cases(ctx: &mut Ctx, th: bool) {
+    // (h1) INVARIANTS.contains on every token of the data file (kept and dropped ones), on
+    //      perturbed entries and on a few foreign strings
+    let data = std::fs::read_to_string("/repo/src/data/euclideanInvariants.data").expect("euclideanInvariants.data");
+    let toks: Vec<&str> = data.split_whitespace().collect();
+    for (k, t) in toks.iter().enumerate() {
+        intable(ctx, t, if t.starts_with('#') { "kind=comment" } else { "nt kind=token" });
+        if !t.starts_with('#') && t.contains('/') && (th || k % 4 == 0) {
+            intable(ctx, &t[..t.len() - 1], "kind=no-trailing-slash");
+            intable(ctx, &format!("{}/", t), "kind=double-slash");
+            intable(ctx, &format!("{}0/", t), "kind=extra-field");
+            if let Some(rest) = t.strip_prefix('1') {
+                intable(ctx, &format!("2{}", rest), "kind=first-digit");
+            }
+        }
+    }
+    for t in ["", "/", "0/0/0/0/", "Dup", "dup:", "#", "symbols", "1/1*/0/0/1/2/", "x"] {
+        if !t.is_empty() {
+            intable(ctx, t, "kind=foreign");
+        }
+    }
+
+    // (h2) groups: synthetic presentations, the finite-group corpus, groups of symbols
+    for g in synthetic_groups() {
+        group_cases(ctx, &g, false, "synthetic");
+    }
+    for g in verif_harness::groups::corpus() {
+        if !(g.quick || th) || g.nr_gens > 3 || g.rels.iter().map(|w| w.len()).sum::<usize>() > 60 {
+            continue;
+        }
+        let rels: Vec<&[isize]> = g.rels.iter().map(|w| &w[..]).collect();
+        group_cases(ctx, &Pres::new(&g.name, g.nr_gens, &rels), false, "finite");
+    }
+    // pseudo-toroidal covers of the corpus (3-torus groups), T²(k) × S¹
+    let covs: Vec<Tab> = corpus()
+        .iter()
+        .filter_map(|s| pseudo_toroidal_cover(&s.to_partial_dsym()).map(|c| Tab::from_dsym(&c)))
+        .collect();
+    for (k, c) in covs.iter().enumerate() {
+        group_cases(ctx, &Pres::of_sym(&format!("torus{}", k), c), false, "corpus-cover");
+    }
+    for k in [1, 2, 3, 4, 6] {
+        group_cases(ctx, &Pres::of_sym(&format!("T2({})xS1", k), &torus_cone_prism(k)), false, "torus-cone-prism");
+    }
+    // orbifold groups of the 3D universe
+    let stride = if th { 1 } else { 5 };
+    let mut serial = 0usize;
+    for n in 1..=(if th { 3 } else { 2 }) {
+        for t in &classes(3, n) {
+            for s in symbols_3d(t) {
+                serial += 1;
+                if serial % stride != 0 {
+                    continue;
+                }
+                group_cases(ctx, &Pres::of_sym(&format!("orb{}", serial), &s), false, "universe");
+            }
+        }
+    }
+
+    // (h3) bad_connected_components
+    let sphere = parse_enc("2 3 2 2 2 2 1 1 1 1 1 1 1 1 1 1");
+    let trivial1 = parse_enc("2 3 2 2 2 2 1 1 1 1 3 3 1 1 1 1");
+    let perfect = parse_enc("2 3 2 2 2 2 1 1 1 1 3 3 3 3 3 3");
+    let trivial2 = parse_enc("2 3 2 2 2 2 1 1 1 1 3 3 3 3 1 1");
+    let cyclic2 = parse_enc("2 3 2 2 2 2 1 1 1 1 2 2 1 1 1 1");
+    let cone2 = torus_cone_prism(2);
+    let small: Vec<&Tab> = covs.iter().filter(|c| c.size <= 96).collect();
+    for (k, c) in covs.iter().enumerate() {
+        if th || k < 6 {
+            bcc(ctx, c, "cover");
+            bcc(ctx, &lift(c), "cover lifted");
+        }
+    }
+    for (name, p) in [("sphere", &sphere), ("trivial1", &trivial1), ("perfect", &perfect), ("trivial2", &trivial2), ("cyclic2", &cyclic2), ("cone2", &cone2)] {
+        bcc(ctx, p, name);
+        bcc(ctx, &lift(p), &format!("{} lifted", name));
+        bcc(ctx, &lift(&union(p, p)), &format!("{0}+{0} lifted", name));
+        if let Some(c) = small.first() {
+            bcc(ctx, &union(c, p), &format!("cover+{}", name));
+            bcc(ctx, &lift(&union(c, p)), &format!("cover+{} lifted", name));
+            bcc(ctx, &lift(&union(p, c)), &format!("{}+cover lifted", name));
+            bcc(ctx, &lift(&union(&union(p, c), p)), &format!("{0}+cover+{0} lifted", name));
+        }
+    }
+    for (i, a) in small.iter().enumerate().take(3) {
+        for b in small.iter().skip(i).take(2) {
+            bcc(ctx, &union(a, b), "cover+cover");
+            bcc(ctx, &lift(&union(a, b)), "cover+cover lifted");
+            bcc(ctx, &lift(&union(&union(&sphere, a), &union(&sphere, b))), "sphere+cover+sphere+cover lifted");
+        }
+    }
+    // symbols of the universe: their tiles (dimension 3), themselves (lifted), unions
+    let stride = if th { 1 } else { 7 };
+    let mut serial = 0usize;
+    let mut prev: Option<Tab> = None;
+    for n in 1..=(if th { 3 } else { 2 }) {
+        for t in &classes(3, n) {
+            for s in symbols_3d(t) {
+                serial += 1;
+                if serial % stride != 0 {
+                    continue;
+                }
+                bcc(ctx, &s, "universe");
+                bcc(ctx, &lift(&s), "universe lifted");
+                if let Some(p) = &prev {
+                    bcc(ctx, &union(p, &s), "universe+universe");
+                    if serial % (4 * stride) == 0 {
+                        bcc(ctx, &lift(&union(&sphere, &s)), "sphere+universe lifted");
+                    }
+                }
+                prev = Some(s);
+            }
+        }
+    }
+    // other dimensions (the hook takes any PartialDSym): 2D symbols and their lifts
+    for n in 1..=2 {
+        for t in &labelled(2, n) {
+            for (k, b) in symbols_2d_cryst(t).into_iter().enumerate() {
+                if th || k % 3 == 0 {
+                    bcc(ctx, &b, "dim2");
+                    bcc(ctx, &lift(&b), "dim2 lifted");
+                }
+            }
+        }
+    }
+
+    // (h4) orbifold_invariant outside the domain of is_euclidean: arbitrary branching numbers
+    //      (two-digit ones are bracketed in the labels), no sphericity filter
+    let vals = [1usize, 2, 3, 5, 7, 10, 12];
+    let stride = if th { 3 } else { 17 };
+    let mut serial = 0usize;
+    for n in 1..=2 {
+        for t in &classes(3, n) {
+            for s in all_vs(t, &vals) {
+                serial += 1;
+                if serial % stride == 0 && !in_domain_3d(&s) {
+                    oinv(ctx, &s, "outside");
+                }
+            }
+        }
+    }
+    for k in [1, 2, 3, 4, 6] {
+        oinv(ctx, &torus_cone_prism(k), "torus-cone-prism");
+    }
+}
+
+fn parse_enc(s: &str) -> Tab {
+    let x: Vec<usize> = s.split_whitespace().map(|t| t.parse().unwrap()).collect();
+    let (size, dim) = (x[0], x[1]);
+    let mut op = vec![vec![0usize; size + 1]; dim + 1];
+    let mut v = vec![vec![0usize; size + 1]; dim];
+    let mut k = 2;
+    for d in 1..=size {
+        for i in 0..=dim {
+            op[i][d] = x[k];
+            k += 1;
+        }
+    }
+    for i in 0..dim {
+        for d in 1..=size {
+            v[i][d] = x[k];
+            k += 1;
+        }
+    }
+    Tab { size, dim, op, v }
 }
 
 fn main() {
@@ -193,6 +648,8 @@ fn main() {
             euc(&mut ctx, "euc_corpus", &s, true, rep, "corpus");
         }
         ograph(&mut ctx, &s, "corpus");
+        oinv(&mut ctx, &s, "corpus");
+        simple_stream(&mut ctx, "euc_corpus", &s, "corpus");
         let vs = variants(&s, &mut rng, 3);
         eucinv(&mut ctx, &vs, "corpus");
         // the corpus is closed under covers with few sheets: ≤ 2 (quick), ≤ 4 capped (thorough)
@@ -226,6 +683,12 @@ fn main() {
                 let extra = if exhaustive { "exhaustive" } else { "sampled" };
                 euc(&mut ctx, "euc", &s, th || n <= 2, 0, extra);
                 ograph(&mut ctx, &s, extra);
+                oinv(&mut ctx, &s, extra);
+                // not on every symbol, also in thorough: a fixed number of cases per symbol would
+                // alias with the 16 shards (case id mod 16) and put one op on one shard
+                if (th && serial % 3 != 0) || (!th && serial % 4 == 0) {
+                    simple_stream(&mut ctx, "euc", &s, extra);
+                }
                 let vs = variants(&s, &mut rng, nren);
                 eucinv(&mut ctx, &vs, extra);
                 if exhaustive || th {
@@ -293,6 +756,10 @@ fn main() {
                         let extra = format!("prism {} {} base={} aut={} order={}", kind, cls, n, ai, o);
                         euc(&mut ctx, if cls == "euc" { "euc_corpus" } else { "euc" }, &p, false, 0, &extra);
                         ograph(&mut ctx, &p, &extra);
+                        oinv(&mut ctx, &p, &extra);
+                        if (pserial + off) % 4 == 0 {
+                            simple_stream(&mut ctx, if cls == "euc" { "euc_corpus" } else { "euc" }, &p, &extra);
+                        }
                         if (pserial + off) % (8 * stride) == 0 {
                             let vs = variants(&p, &mut prng, 1);
                             eucinv(&mut ctx, &vs, &extra);
@@ -302,5 +769,7 @@ fn main() {
             }
         }
     }
+    // (4) the hooks of the cascade, each against its model
+    hook_cases(&mut ctx, th);
     ctx.finish();
 }
